@@ -4,7 +4,7 @@ Every hook compares the *result* of the real tool with oracle-side geometry
 (vmon.oracles.cells) computed from the input mesh and the call's arguments.
 Hooks assert only when the input mesh was valid (positive oracle volumes).
 """
-import inspect
+import copy
 
 import numpy as np
 
@@ -856,8 +856,34 @@ def post_fill_between(run, tool, m, o, out, a):
 
 
 # ------------------------------------------------------------------------------------------ generators
+# The documented defaults of the generators (docstrings of felupe.mesh.<Generator>; the unit circle about the origin, as the examples
+# use it), stated here (fourth audit): the intended domain and the tolerances that follow from ``decimals`` are those of the
+# documentation for every argument the caller did not pass, not those the signature under test happens to hold (a ``Triangle``
+# whose default ``decimals`` became 3 would otherwise be allowed an error of 1e-1 in its area).
+DOC_GEN = {
+    "Line": dict(a=0.0, b=1.0, n=2),
+    "Rectangle": dict(a=(0.0, 0.0), b=(1.0, 1.0), n=(2, 2)),
+    "Cube": dict(a=(0.0, 0.0, 0.0), b=(1.0, 1.0, 1.0), n=(2, 2, 2)),
+    "Grid": dict(xi=(), indexing="ij"),
+    "Circle": dict(radius=1.0, centerpoint=[0.0, 0.0], n=2, sections=[0, 90, 180, 270], value=0.15, exponent=2, decimals=10),
+    "Triangle": dict(a=(0.0, 0.0), b=(1.0, 0.0), c=(0.0, 1.0), n=2, decimals=10),
+    "RectangleArbitraryOrderQuad": dict(a=(0.0, 0.0), b=(1.0, 1.0), order=2),
+    "CubeArbitraryOrderHexahedron": dict(a=(0.0, 0.0, 0.0), b=(1.0, 1.0, 1.0), order=2),
+}
+
+
+def documented_arguments(name, a):
+    """The arguments of a generator call: the values the caller passed (``a.given``, vmon.attach.Arguments), the documented default
+    for every other name."""
+    given = getattr(a, "given", None)
+    if name not in DOC_GEN or given is None:
+        return dict(a)
+    return dict(DOC_GEN[name], **{k: a[k] for k in given if k in a})
+
+
 def post_generator(run, obj, a):
     name = type(obj).__name__
+    a = documented_arguments(name, a)
     tool = "gen." + name
     mon = "mesh." + tool
     v = vols(obj)
@@ -927,6 +953,14 @@ def post_generator(run, obj, a):
             o = np.argsort(ang)
             P = rel[bpts][o]
             expected = 0.5 * float(np.sum(P[:, 0] * np.roll(P[:, 1], -1) - np.roll(P[:, 0], -1) * P[:, 1]))
+            # ... and the closed form of that polygon (fourth audit: the polygon above goes through the mesh's own boundary points, their
+            # spacing on the circle is the mesh's): every quarter carries 2 (n - 1) equal chords, area = 4 * 2 (n - 1) * R^2 / 2 * sin(pi / 2 / (2 (n - 1)))
+            if np.isscalar(a["n"]) and int(a["n"]) >= 2:
+                nch = 2 * (int(a["n"]) - 1)
+                closed = 4 * nch * 0.5 * R ** 2 * np.sin(0.5 * np.pi / nch)
+                run.compare(mon, "generator=Circle clause=area-of-the-regular-polygon", abs(float(v.sum()) - closed) / closed, TOL + 100 * 10.0 ** (-a["decimals"]),
+                            "Circle: the covered area is not that of the regular polygon of 8 (n - 1) chords on the circle (%.12g vs %.12g)" % (float(v.sum()), closed),
+                            unit=tool + ":regular-polygon", config=(name, "regular-polygon"))
         if rad.max() > R * (1 + rtol_circle):
             run.fail(mon, "generator=Circle clause=inside", "Circle: a point lies outside the radius")
     # the point counts per axis are arguments too: every node of the uniform grid a + (b - a) i / (n - 1) exactly once, prod(n - 1) cells
@@ -1031,23 +1065,65 @@ DOC_DEFAULTS = {
 }
 
 
-def _with_defaults(name, ba):
-    d = dict(ba.arguments)
-    if name in DOC_DEFAULTS:
-        return dict(DOC_DEFAULTS[name], **d)
-    ba.apply_defaults()
-    return dict(ba.arguments)
+# The documented ORDER of the tools' own arguments (docstrings of felupe.Mesh.<tool> / felupe.mesh.<tool>, section Parameters; for the
+# module-level functions: what follows ``points, cells, cell_type``), stated here as well (fourth audit): a value the caller passes
+# by position carries the name the documentation gives to that position, not the name the parameter list of the code under test
+# happens to give it (``mirror(self, centerpoint, normal)``, ``convert(.., calc_midvolumes, calc_midfaces)`` would otherwise name
+# their own mix-up).  ``fill_between`` is stated for the module-level function (the method of the mesh calls it).
+DOC_ORDER = {
+    "expand": ("n", "z", "axis", "expand_dim"),
+    "revolve": ("n", "phi", "axis", "expand_dim"),
+    "rotate": ("angle_deg", "axis", "center", "mask"),
+    "translate": ("move", "axis"),
+    "mirror": ("normal", "centerpoint", "axis"),
+    "flip": ("mask",),
+    "triangulate": ("mode",),
+    "convert": ("order", "calc_points", "calc_midfaces", "calc_midvolumes"),
+    "merge_duplicate_points": ("decimals",),
+    "merge_duplicate_cells": (),
+    "add_midpoints_edges": ("cell_type",),
+    "add_midpoints_faces": ("cell_type",),
+    "add_midpoints_volumes": ("cell_type",),
+    "disconnect": ("points_per_cell", "calc_points"),
+    "collect_edges": (), "collect_faces": (), "collect_volumes": (),
+    "fill_between": ("mesh", "other_mesh", "n"),
+    "add_runouts": ("values", "centerpoint", "axis", "exponent", "mask", "normalize"),
+}
+# (the module-level mid-point tools call the new label ``cell_type_new``: ``cell_type`` is the label of the arrays there)
+FUNCTION_NAMES = {"cell_type_new": "cell_type"}
+REQUIRED = {"rotate": ("angle_deg", "axis"), "translate": ("move", "axis"), "fill_between": ("mesh", "other_mesh")}
+
+
+def bind_documented(name, args, kwargs, rename=None):
+    """The arguments of a call by their documented names: positional values by the documented order, keywords as the caller wrote
+    them, everything the caller did not pass by the documented default.  None for a call the documentation does not allow (too many
+    values, a name twice, an unknown name, a required argument missing) - the tool raises there, or nothing is stated."""
+    order = DOC_ORDER.get(name)
+    if order is None or len(args) > len(order):
+        return None
+    d = dict(zip(order, args))
+    for k, v in kwargs.items():
+        k = (rename or {}).get(k, k)
+        if k in d or k not in order:
+            return None
+        d[k] = v
+    if any(k not in d for k in REQUIRED.get(name, ())):
+        return None
+    return dict(DOC_DEFAULTS.get(name, {}), **d)
 
 
 def _bind(orig, self, args, kwargs, name=None):
+    # (``orig`` is no longer asked for its parameter list: names and defaults are the documented ones)
+    return bind_documented(name, args, kwargs)
+
+
+def _as_passed(args, kwargs):
+    """The caller's argument values as they were when the call was made (fourth audit: lists / arrays of layer positions, angles,
+    masks, normals are handed over by reference; a tool that rewrites them in place would move the reference along with its result)."""
     try:
-        # (the method's own parameters: ``collect_*`` carry the documentation of the module-level functions by functools.wraps)
-        ba = inspect.signature(orig, follow_wrapped=False).bind(self, *args, **kwargs)
-        d = _with_defaults(name, ba)
-        d.pop("self", None)
-        return d
-    except TypeError:
-        return None
+        return copy.deepcopy(tuple(args)), copy.deepcopy(dict(kwargs))
+    except Exception:
+        return tuple(args), dict(kwargs)
 
 
 def _embedded_ok(name, before, a):
@@ -1088,6 +1164,7 @@ def call_function(run, name, mesh, style, *args, **kwargs):
     import felupe as fem
     f = getattr(fem.mesh, name)
     before = Snapshot(mesh)
+    args0, kwargs0 = _as_passed(args, kwargs)
     P, C, T = mesh.points, mesh.cells, mesh.cell_type
     if style == "mesh":
         res = f(mesh, *args, **kwargs)
@@ -1120,15 +1197,10 @@ def call_function(run, name, mesh, style, *args, **kwargs):
                      "felupe.mesh.%s (%s) changed the points / cells it was given" % (name, style))
         else:
             run.ok("mesh.function." + name, unit="function:input-untouched")
-        # the arguments as the caller passed them, by the names of the tool's own signature
-        try:
-            ba = inspect.signature(f).bind(P, C, T, *args, **kwargs)
-            a = {k: v for k, v in ba.arguments.items() if k not in ("points", "cells", "cell_type")}
-        except TypeError:
+        # the arguments as the caller passed them, by their documented names (positional ones by the documented order, DOC_ORDER)
+        a = bind_documented(name, args0, kwargs0, rename=FUNCTION_NAMES)
+        if a is None:
             return res
-        if "cell_type_new" in a:
-            a["cell_type"] = a.pop("cell_type_new")
-        a = dict(DOC_DEFAULTS.get(name, {}), **a)
         fn = POST.get(name)
         if fn is not None:
             run.units["function:" + name] += 1
@@ -1150,17 +1222,17 @@ def attach_hooks(run):
         orig = Mesh.__dict__[name]
 
         def pre(self, args, kwargs):
-            # the input as it was handed over (a tool that also changes its input in place must not move the reference)
-            return Snapshot(self)
+            # the input and the arguments as they were handed over (a tool that also changes them in place must not move the reference)
+            return (Snapshot(self),) + _as_passed(args, kwargs)
 
         def post(self, args, kwargs, ctx, result, exc):
             if exc is not None or result is None:
                 return
             run.seen("mesh." + name)
-            a = _bind(orig, self, args, kwargs, name)
+            before, args0, kwargs0 = ctx if ctx is not None else (self, args, kwargs)
+            a = _bind(orig, self, args0, kwargs0, name)
             if a is None:
                 return
-            before = ctx if ctx is not None else self
             if result is not self and (not np.array_equal(before.points, self.points) or not np.array_equal(before.cells, self.cells)):
                 run.fail("mesh." + name, "tool=%s clause=input-untouched" % name,
                          "%s returns a new mesh but also changed the points / cells of the mesh it was called on" % name)
@@ -1176,16 +1248,13 @@ def attach_hooks(run):
     orig_fb = fem.mesh._tools.fill_between
 
     def bind_fb(args, kwargs):
-        try:
-            ba = inspect.signature(orig_fb).bind(*args, **kwargs)
-            return _with_defaults("fill_between", ba)
-        except TypeError:
-            return None
+        return bind_documented("fill_between", args, kwargs)
 
     def pre_fb(args, kwargs):
         a = bind_fb(args, kwargs)
         if a is None or not all(hasattr(a.get(k), "points") and hasattr(a.get(k), "cells") for k in ("mesh", "other_mesh")):
             return None
+        a["n"] = copy.deepcopy(a["n"])  # (layer positions may be the caller's array: as they were when the call was made)
         return Snapshot(a["mesh"]), Snapshot(a["other_mesh"]), a
 
     def post_fb(args, kwargs, ctx, result, exc):
